@@ -363,6 +363,8 @@ pub struct NodeSpec {
     pub user_outbound_delay: Duration,
     /// ... spent busy on an always-ready resource (`busy_on_a_hot_resource`) instead of asleep
     pub user_outbound_busy: bool,
+    /// the builder's server_name is set twice (a template value first, then the real one)
+    pub name_set_twice: bool,
     /// ... and adds a header `x-added` with a value of this many bytes (0 = none) to every request
     pub user_outbound_adds_header: usize,
     /// the network is bound on a dual-stack IPv6 address (its peers are IPv4 hosts all the same)
@@ -400,6 +402,7 @@ impl World {
             user_outbound_layer: false,
             user_outbound_delay: Duration::ZERO,
             user_outbound_busy: false,
+            name_set_twice: false,
             user_outbound_adds_header: 0,
             dual_stack: false,
             vary_benign: true,
@@ -462,6 +465,9 @@ impl World {
             if r.gen_bool(0.15) {
                 spec.dual_stack = true;
             }
+            if r.gen_bool(0.2) {
+                spec.name_set_twice = true;
+            }
             self.probe("benign-config-variation");
         }
         let a = addr_port(spec.idx, spec.port);
@@ -476,7 +482,13 @@ impl World {
             runtime: rt.clone(),
             rng_seed,
         });
-        let mut b = Network::bind("127.0.0.1:0")
+        // (a builder taken from a template and then given its real name: the last name set is the
+        // network's name, an overridden one is gone)
+        let mut b = Network::bind("127.0.0.1:0");
+        if spec.name_set_twice {
+            b = b.server_name("template-net");
+        }
+        let mut b = b
             .server_name(spec.name)
             .private_key(spec.key)
             .config(spec.config);
